@@ -114,6 +114,22 @@ def _planted(seed, n_events=4, sy=0.8, drop=(0.35, 0.9), weak=False, wiggle=Fals
     return {"rain": rain, "et": et, "wl": wl, "truth": {"zr": zr, "sy": sy}, "events": events, "ranges": ranges, "wiggle": wiggle}
 
 
+def with_gap(data):
+    """The same dataset with three consecutive water-level samples removed from the middle of its first recession of at least
+    seven samples (rainfall and ET untouched); None if there is no such recession."""
+    idx = 0
+    for ev in data["events"]:
+        if ev[0] == "storm":
+            idx += ev[1] + 1
+        else:
+            if ev[1] >= 7 and idx + ev[1] < len(data["wl"]) - 4:
+                d = dict(data)
+                d["wl"] = data["wl"][:idx + 2] + data["wl"][idx + 5:]
+                return d
+            idx += ev[1]
+    return None
+
+
 def workflow(repo, data, grid_mm, ref=None, shift=0, tz="UTC", cli=False, steps=("rise", "recession")):
     m = _mods(repo)
     rain = [(e + shift, v) for e, v in data["rain"]]
@@ -330,6 +346,18 @@ def run_C07(repo, tier, seed):
                 j = len(wl) - 3
                 wl[j + 1] = (wl[j + 1][0], wl[j][1] + 8.0 * step / 3600.0)
                 wl[j + 2] = (wl[j + 2][0], wl[j + 1][1] - 0.3)
+                # ... and one on a rainy step: the first increment of a storm of at least two steps is set to exactly
+                # threshold x step (the rest of the rise goes to its second step), so that the rise test of the storm
+                # matching -- not only the interstorm flags -- sits on the boundary
+                idx = 0
+                for evt in data["events"]:
+                    if evt[0] == "storm":
+                        if evt[1] >= 2 and idx + 1 < j:
+                            wl[idx + 1] = (wl[idx + 1][0], wl[idx][1] + 8.0 * step / 3600.0)
+                            break
+                        idx += evt[1] + 1
+                    else:
+                        idx += evt[1]
                 d2["wl"] = wl
             case = {"planted_seed": seed * 50 + k, "grid": name}
             try:
@@ -424,6 +452,26 @@ def run_C09(repo, tier, seed):
                 r2 = dict((int(round(z / grid)), v) for z, v in c2.execute("SELECT zeta_mm, %s FROM %s" % (col, view)))
                 if k not in r2 or abs(r2[k]) > 1e-7 * scale:
                     failures.append({"key": "not-zero-at-reference", "input": case, "observed": "curve at the reference level is %r" % (r2.get(k),)})
+            # the boundary multiple k = 0: 0.0 is a legitimate reference level (and falsy in Python).  The planted record is
+            # lowered by a whole number of mm so that level 0 lies inside the curve.
+            c = float(round(rows[len(rows) // 2][0]))
+            data0 = dict(data, wl=[(e, v - c) for e, v in data["wl"]])
+            case = {"step": kind, "grid_step_mm": grid, "k": 0, "reference_zeta_mm": 0.0, "record_lowered_by_mm": c}
+            try:
+                c3 = workflow(repo, data0, grid, ref=0.0, steps=(kind,))
+                r3 = dict((int(round(z / grid)), v) for z, v in c3.execute("SELECT zeta_mm, %s FROM %s" % (col, view)))
+                if 0 in r3:
+                    ev += 1
+                    if abs(r3[0]) > 1e-7 * scale:
+                        failures.append({"key": "not-zero-at-reference-0", "input": case,
+                                         "observed": "curve at the reference level 0 is %r" % (r3[0],)})
+            except ValueError as e:
+                failures.append({"key": "zero-rejected", "input": case, "observed": "reference 0.0 refused: %s" % str(e)[:100]})
+            except Exception as e:
+                if not nothing_to_assemble(repo, data0, grid, kind):
+                    tb = traceback.extract_tb(e.__traceback__)[-1]
+                    failures.append({"key": "raised-ref0-" + type(e).__name__, "input": case,
+                                     "observed": "%s: %s (%s:%d)" % (type(e).__name__, e, tb.name, tb.lineno)})
             # off-grid reference
             k = ks[len(ks) // 2]
             ref = (k + 0.5) * grid
@@ -453,11 +501,20 @@ def run_C13(repo, tier, seed):
     ev = 0
     failures, samples = [], []
     for k in range(2 if tier == "quick" else 10):
-        for grid in (1.0, 0.5, 2.5, -0.5):
-            # grid < 0 marks the dataset with a non-monotone recession (levels crossed more than once), at |grid|
-            data = planted(seed * 31 + k, wiggle=grid < 0)
+        for grid in (1.0, 0.5, 2.5, -0.5, 1j):
+            # grid < 0 marks the dataset with a non-monotone recession (levels crossed more than once), at |grid|;
+            # an imaginary grid marks the dataset whose water-level record has a hole (logger outage) inside its first long
+            # recession while rainfall goes on being recorded: positions in the water-level record and in the rainfall
+            # record differ from there on, and the storms after the hole must still get their own rain
+            gap = isinstance(grid, complex)
+            data = planted(seed * 31 + k, wiggle=(not gap) and grid < 0)
             grid = abs(grid)
-            case = {"planted_seed": seed * 31 + k, "grid_step_mm": grid, "non_monotone_recession": data.get("wiggle", False)}
+            if gap:
+                data = with_gap(data)
+                if data is None:
+                    continue
+            case = {"planted_seed": seed * 31 + k, "grid_step_mm": grid, "non_monotone_recession": data.get("wiggle", False),
+                    "water_level_gap": gap}
             try:
                 con = workflow(repo, data, grid)
             except Exception as e:
